@@ -3,8 +3,13 @@ grammar's boundary bytes and on a universe of nested values; the REAL common/rlp
 strings/values (plus seeded long forms and mutations) and every result is validated by TraceRlp.tla.
 Part 2 (CodecShapes.tla): TLC enumerates every (consensus type, shape) pair and checks the wire model of the
 value-dependent codec branches; every shape is instantiated on the REAL types, round-tripped and observed, and
-TraceCodecShapes.tla demands what the type's stability class requires."""
-import json, concurrent.futures
+TraceCodecShapes.tla demands what the type's stability class requires.
+Part 3 (CodecShapesSlots.tla): the typed decoders.  Every hashed or signed type is a descriptor tree over Rlp.tla; TLC enumerates
+every (type, instance, field path, primitive encoding class) and every (type, numeric field, boundary value); the driver builds
+those strings from REAL honest encodings, offers them to the REAL typed decoders (RLP and JSON) and TraceCodecShapes.tla demands
+that exactly the canonical encodings of values of the type are accepted, that what was accepted re-encodes to the offered bytes,
+and that a boundary value survives RLP, JSON and a box payload with the same bytes, hash and signers."""
+import json, os, time, concurrent.futures
 LEVEL = "model_checking"
 
 MANIFEST = dict(
@@ -17,15 +22,64 @@ MANIFEST = dict(
          "JSON form), all 19 registered change-log types built by their real constructors, account data, deputy node, asset, equity, "
          "13 wire messages and the Lemo address text; each is instantiated with seeded values on the real types, encoded, decoded as "
          "the node decodes it, re-encoded, and TLC requires equal value, payload types, hash/merkle roots, recovered signers and - for "
-         "hashed or signed types - equal bytes; damaged copies of every encoding are offered to the typed decoders (no panic).",
-    note="Projections of values are rendered by the harness (nil and empty byte strings alike; OldVal of a change log is not encoded by design); "
+         "hashed or signed types - equal bytes; damaged copies of every encoding are offered to the typed decoders (no panic). "
+         "Typed decoders: header, block, transaction, the 19 change logs, deputy node, asset and equity are descriptor trees over the "
+         "RLP model (uints by width, big ints, byte strings, fixed arrays, rlp:\"nil\" pointers, elided header roots, optional / nil "
+         "payloads, profile pairs, lists, structs); TLC enumerates ~15500 slots = (type, full/empty instance, field path down to list "
+         "elements and their fields, one of 35 primitive encoding classes: empty string, single bytes, wrapped single bytes, empty / "
+         "one-element lists, leading zero, non-minimal and zero-led lengths, 55/56 bytes, other kind, n-1 / n / n+1 bytes of the field's "
+         "size, item missing / repeated / followed by another, elements exchanged / repeated, written-out empty-trie hash); each is "
+         "built from a real honest encoding and offered to the real decoder, which must accept exactly when the model does and "
+         "re-encode what it accepted to the offered bytes. Every numeric field (transaction, header, deputy node, asset, equity, change-log "
+         "version and amounts, account balance / candidate votes / record versions and heights / signer weight, asset-transaction "
+         "amounts, heights and counters of 10 wire messages) takes 17 boundary values (0, 1, 127, 128, 255, 256, 2^16-1, 2^16, 2^32-1, "
+         "2^32, 2^64-1, 2^64, 10^77-1, 10^77, 2^255, 2^256-1, 2^256) through every encoding the type has - RLP, JSON and, for a "
+         "transaction, a box payload: accepted by each exactly when it fits the field, written back as the same bytes / the same "
+         "decimal text, and both forms yield the same encoding, hash and recovered signers.",
+    note="Typed-decoder canonicity is demanded of the hashed or signed types; account records and wire messages are stored / sent only "
+         "and take part in the round trips and the numeric cases. A slot replaces ONE item of an honest encoding. "
+         "Projections of values are rendered by the harness (nil and empty byte strings alike; OldVal of a change log is not encoded by design); "
          "every equality is judged in TLA+. Error kinds of the decoder are not distinguished. Inputs shorter than 2^24 bytes. "
          "The registry of change-log types is read off the real code and must equal the spec's catalogue.",
-    technique="TLA+ model checking (Rlp.tla/MCRlp, CodecShapes.tla/MCCodecShapes with negative controls per deviation) + real-code "
+    technique="TLA+ model checking (Rlp.tla/MCRlp, CodecShapes.tla/MCCodecShapes, CodecShapesSlots.tla/MCCodecShapesSlots - typed decoders as "
+              "descriptor trees over the RLP model - with negative controls per deviation) + real-code "
               "evaluation on the TLC-enumerated work list + TLC trace validation (TraceRlp, TraceCodecShapes)")
 
 DEV_KEYS = ["Dev_EmptyPayloadDecodedUntyped", "Dev_AddressDecodeKeepsStaleBytes", "Dev_JsonManglesInvalidUtf8"]
+SLOT_DEV_KEYS = ["Dev_EmptyValueAnyKind", "Dev_FixedBytesAnyLength", "Dev_ProfilePairsAnyOrder"]
 SHARDS = 16
+
+
+def _validate_parallel(ctx, files, what, slots=6, heap="2500m"):
+    """Several TLC trace validators at once, each on its own copy of the trace module (own work dir) with a small heap."""
+    src = open(os.path.join(ctx.specdir, "TraceCodecShapes.tla")).read()
+    for i in range(slots):
+        with open(os.path.join(ctx.specdir, "TraceCodecShapes_%d.tla" % i), "w") as fh:
+            fh.write(src.replace("---- MODULE TraceCodecShapes ----", "---- MODULE TraceCodecShapes_%d ----" % i, 1))
+    size = {f: os.path.getsize(f) for f in files}
+    bins = [[0, []] for _ in range(min(slots, len(files)))]
+    for f in sorted(files, key=lambda f: (-size[f], f)):
+        b = min(bins, key=lambda b: b[0])
+        b[0] += size[f]
+        b[1].append(f)
+    tlc = ctx.tlc
+
+    def small_heap(module, *a, **kw):
+        if module.startswith("TraceCodecShapes_"):
+            kw["heap"] = os.environ.get("VERIF_C14_HEAP", heap)
+        return tlc(module, *a, **kw)
+    ctx.tlc = small_heap
+
+    def one(ib):
+        i, b = ib
+        time.sleep(0.05 * i)
+        return ctx.validate("TraceCodecShapes_%d" % i, "TraceCodecShapes.cfg", sorted(b[1]), what="%s, part %d/%d" % (what, i + 1, len(bins)),
+                            timeout=1800, count_behaviours=False)
+    try:
+        with concurrent.futures.ThreadPoolExecutor(len(bins)) as ex:
+            return all(list(ex.map(one, enumerate(bins))))
+    finally:
+        ctx.tlc = tlc
 
 
 def _broken(msg):
@@ -53,9 +107,34 @@ def _short(o, n=160):
     return o
 
 
+def _design3(ctx, dot3, cfg3):
+    """Design side of part 3 (runs beside parts 1 and 2): TLC enumerates the slots and numeric cases and checks the typed-decoder
+    theorems; then the negative controls: the model with one deviation of the code switched on must break InvSlotCanon."""
+    args = ["-dump", "dot,actionlabels", dot3]
+    r3 = ctx.tlc("MCCodecShapesSlots", cfg3, timeout=900, args=args, workers=8, heap="4g")
+
+    def neg3(ik):
+        i, k = ik
+        time.sleep(0.3 * i)
+        name = "MCCodecShapesSlots_%s.cfg" % k
+        txt = open(ctx.specdir + "/" + cfg3).read().replace("Devs = {}", 'Devs = {"%s"}' % k)
+        open(ctx.specdir + "/" + name, "w").write(txt)
+        n = ctx.tlc("MCCodecShapesSlots", name, timeout=600, expect_ok=False, workers=2, heap="2g")
+        if n["inv"] != "InvSlotCanon":
+            _broken("negative control: typed-decoder model with %s on should violate InvSlotCanon, got %s" % (k, n["inv"]))
+        return k, n["inv"]
+    with concurrent.futures.ThreadPoolExecutor(len(SLOT_DEV_KEYS)) as ex:
+        neg = dict(ex.map(neg3, enumerate(SLOT_DEV_KEYS)))
+    return r3, neg
+
+
 def run(ctx):
     ctx.build()
     ok = True
+    dot3 = ctx.path("slots.dot")
+    cfg3 = "MCCodecShapesSlots_quick.cfg" if ctx.quick() else "MCCodecShapesSlots_thorough.cfg"
+    bg = concurrent.futures.ThreadPoolExecutor(1)
+    design3 = bg.submit(_design3, ctx, dot3, cfg3)
     # ------------------------------------------------------------------ part 1: the low-level codec
     cfg = "MCRlp_quick.cfg" if ctx.quick() else "MCRlp_thorough.cfg"
     dot = ctx.path("rlp.dot")
@@ -118,7 +197,41 @@ def run(ctx):
         if ok:
             acc2 = rows2
     samples += [s["sample"] for _, s in res2 if s.get("sample")][:2]
-    ctx.cov["traces_validated_against_impl"] = (rows1 + acc2) if ok else 0
+    # ------------------------------------------------------------------ part 3: typed decoders by slot, numeric boundary values
+    r3, neg3 = design3.result()
+    bg.shutdown()
+    neg.update(neg3)
+    ctx.cov["states"] += r3["distinct"]
+    ctx.cov["transitions"] += r3["generated"]
+    ctx.extra.setdefault("tlc_runs", []).append(dict(module="MCCodecShapesSlots", cfg=cfg3, generated=r3["generated"],
+                                                     distinct=r3["distinct"], wall_s=round(r3["wall"], 1)))
+    ctx.log("TLC MCCodecShapesSlots/%s: %d generated, %d distinct, %.1fs (beside parts 1 and 2); negative controls %s" % (
+        cfg3, r3["generated"], r3["distinct"], r3["wall"], json.dumps(neg3)))
+    variants3 = 1 if ctx.quick() else 4
+    res3 = _drive_all(ctx, "codecslots", ["-graph", dot3, "-variants", variants3], "slots")
+    counts3 = {}
+    for _, s3 in res3:
+        for k, v in s3["counts"].items():
+            counts3[k] = counts3.get(k, 0) + v
+    rows3 = sum(v for k, v in counts3.items() if k.startswith("slot:") or k.startswith("num:"))
+    lines3 = sum(s3["rows"] for _, s3 in res3)
+    ctx.log("real typed decoders: %d slot/num rows (%d lines) %s" % (rows3, lines3, json.dumps(counts3, sort_keys=True)))
+    work3, other3 = res3[0][1]["work_states"], res3[0][1]["other_states"]
+    if work3 + other3 != r3["distinct"] or rows3 != work3 * variants3:
+        _broken("codecslots driver wrote %d rows for %d slots (+%d fan-out states, TLC: %d states) x %d variants" % (
+            rows3, work3, other3, r3["distinct"], variants3))
+    for k in ("slot_accepted", "slot_refused", "num:tx", "slot:log", "slot:block"):
+        if not counts3.get(k):
+            _broken("vacuous typed-decoder run: no %s rows" % k)
+    acc3 = 0   # validated whatever parts 1 and 2 said: the parts judge different inputs
+    if _validate_parallel(ctx, [f for f, _ in res3], "typed decoders and boundary values"):
+        acc3 = rows3
+    else:
+        ok = False
+    samples += [s3["sample"] for _, s3 in res3 if s3.get("sample")][:1]
+    ctx.extra["typed_decoder_rows"] = counts3
+    ctx.extra["typed_decoder_variants"] = variants3
+    ctx.cov["traces_validated_against_impl"] = (rows1 + acc2 + acc3) if ok else 0
     ctx.cov["exhaustive"] = True
     ctx.cov["samples"] = [_short(s) for s in samples]
     ctx.extra["rlp_rows"] = counts
@@ -126,11 +239,18 @@ def run(ctx):
     ctx.extra["shape_variants"] = variants
     ctx.extra["damaged_encodings_offered_to_typed_decoders"] = rows2 * muts
     ctx.extra["bounds"] = dict(rlp=open(ctx.specdir + "/" + cfg).read(), seeded_strings=seeded,
-                               shapes=r2["distinct"], variants_per_shape=variants)
+                               shapes=r2["distinct"], variants_per_shape=variants,
+                               slots=work3, slot_cfg=open(ctx.specdir + "/" + cfg3).read(), instances_per_slot=variants3)
     ctx.assumptions += [
         "byte strings over the 14 boundary bytes up to the configured length exhaustively; longer strings (<= ~400 bytes, long-form prefixes, mutations) seeded, not exhaustive",
         "inputs are shorter than 2^24 bytes; decoder error kinds are not distinguished",
         "a shape fixes the value-dependent branch of every custom codec; field contents are seeded (sizes up to 300 bytes)",
         "nil and empty byte strings, and nil and empty/zero containers of AccountData, are the same value; ChangeLog.OldVal is not part of the encoding by design",
-        "the property is demanded of values produced by the real constructors (and, for a nil gas payer, of the JSON form), not of arbitrary byte strings offered to the high-level decoders",
+        "round trips (part 2) start from values produced by the real constructors (and, for a nil gas payer, from the JSON form); "
+        "arbitrary byte strings meet the typed decoders in part 3 only as honest encodings with ONE item replaced by a primitive encoding class "
+        "(paths down to the fields of the first element of a list; a change log inside a block is replaced as a whole)",
+        "typed-decoder canonicity is demanded of the hashed or signed types (header, block, transaction, change log, deputy node, asset, equity); "
+        "account records and wire messages are value-stable only (part 2)",
+        "numeric fields take the 17 listed boundary values; tx.Version is left out (the JSON form demands the current version by design); "
+        "JSON text is not required to be canonical (leading zeros / 0x forms are accepted on input)",
     ]
